@@ -178,7 +178,7 @@ Proof.
         split; [exact S|]. split; [exact Fe|]. split; [exact I'|]. split; [exact A'|]. split; [exact Tr|]. split; [exact F|].
         split; [exact Es|exact XX]. }
       { (* a skipped declaration *)
-        rewrite !andb_true_iff in Hs. destruct Hs as [H0 Hb].
+        rewrite !andb_true_iff in Hs. destruct Hs as [[H0 _] Hb].
         rewrite r_smarkup_eq in HW, HWv |- *.
         rewrite (skip_spaces_st text); [|exact HW|apply s_spaces; exact H0|destruct k; reflexivity].
         pose proof (WV_lit _ _ _ _ HWv (s_lit _ H0)) as HWa. pose proof (WV_W _ _ _ HWa) as HWa'.
